@@ -114,4 +114,62 @@ ENTRIES.update({
   "note": "Trusted base as for C01; the arithmetic of the coupling (one multiply-add) is compared at 1e-9.",
  },
 })
+ENTRIES.update({
+ "C10": {
+  "text": "[A] proofs (Props/C10) for every scene (any number of environment objects, any geometric oracle), safety table and scheduler "
+          "choice: the enumerated tasks are exactly the relevant pairs of the statement that pass the never-collides gate (plus the always "
+          "enumerated tool-base pair), without duplicates; under a conservative pre-filter the per-pair verdict is the brute-force one; "
+          "in all-collisions mode the report is exactly the relevant pairs with a positive verdict; in first-collision mode it has at "
+          "most one element, is a subset and is empty iff that set is, for every choice function; nothing in no-check mode; collides <=> "
+          "set non-empty; reports and collides do not depend on the choice. Runs compare the model with collision_details / collides / "
+          "near on real meshes under rayon pools 1,2,4,16, with the oracle table computed by direct parry3d calls, and check brute force.",
+  "note": "Trusted: parry3d (distance, intersection_test, Aabb) as oracle; that the world-AABB pre-filter is conservative is a hypothesis "
+          "(PrefilterSound) checked per case by the predicate C10.prefilter_conservative; pairs within 1e-5 of their threshold are "
+          "don't-care (f32). rayon's find_map_any is modelled by an arbitrary choice function.",
+ },
+ "C11": {
+  "text": "[A] proofs (Props/C11): each of the four entry points of the robot with shape is the order-preserving filter of the inner stack's "
+          "answers by the collision verdict (sublist, nothing colliding, nothing free dropped); forward, links, limits and singularity are "
+          "the inner stack's; both constructors build tool(base(opw with limits)). Runs call the inner stack, the robot's own collides per "
+          "answer and the wrapper on the same query and require bit-equal vectors in the same order; positioned_robot against link poses.",
+  "note": "The collision verdict is the oracle of C10. Trusted base as for C10.",
+ },
+ "C14": {
+  "text": "[A] proofs (Props/C14): the candidates are exactly the twelve single-joint replacements in order; the result is a sublist of them, "
+          "each within limits; under the hypothesis that pairs of bodies that both did not move do not collide (initial vector free), the "
+          "skip-based check equals the full first-collision check, so the result is exactly the candidates that are within limits and "
+          "that collides() reports free. Runs supply per candidate the compliance verdict, the robot's full collides() verdict and the "
+          "oracle table, replay the skip logic in the model and require the offered list to equal the filter.",
+  "note": "Trusted base as for C10; the Unmoved hypothesis is what the property's 'collision-free initial vectors' provides.",
+ },
+ "C15": {
+  "text": "[R]/[G] proofs (Props/C15): torques are the transpose applied to the wrench (entrywise and as virtual work (J^T F).x = F.(J x)); the "
+          "isometry and vector entry points extract the same 6-vector; J x is linear; for joint 1 (representative) perturbing the joint "
+          "rotates the whole pose about the joint axis, the angular part of the column is exactly sign*(0,0,1) for |eps| < pi and the "
+          "linear part converges to axis x lever arm. Runs compare the whole matrix with the model's finite-difference Jacobian and check "
+          "on the implementation's matrix: every column against sign_i (a_i x (p - o_i), a_i) from the independent link chain within the "
+          "differencing step, J.velocities = twist for cond < 1e4 through all three velocity entry points, torques = J^T F.",
+  "note": "PARTIAL proof of the geometric clause (joint 1 only); columns 2-6 and wrapped robots are decided by the sampled predicate "
+          "C15.geometric. try_inverse/SVD are nalgebra (oracle; only the residual is checked). Trusted base as for C01.",
+ },
+ "C17": {
+  "text": "[R]/[G] proofs (Props/C17): order and content of the three rejections; the 5 mm constant; for non-collinear inputs the frame is a "
+          "proper rigid transform (unit quaternion, rotation matrix in SO(3)) mapping p1 to q1; if the targets are the images of a rigid "
+          "motion g the frame IS g (same translation, same rotation, maps every point like g) — frame_recovers_motion, full; uniqueness of "
+          "the motion; forward_transformed returns (inverse_continuing(frame*forward(qs), previous), frame*forward(qs)), sorted, every answer "
+          "passing the run-time pose check (C01's partial form). Runs compare Frame::frame with the model and check mapping, properness, "
+          "rejections and forward_transformed on the implementation's output.",
+  "note": "The collinearity guard is an exact == 0.0 test in the code (and model); near-collinear conditioning is reflected in the "
+          "predicate's tolerance (1e-9/sine). Trusted base as for C01.",
+ },
+ "C18": {
+  "text": "[R] proofs (Props/C18), the random draw being the parameter u in [0, span): the span handed to gen_range is positive exactly for arcs "
+          "of positive width (and for from == to), so the call cannot panic there; it equals the arc width the constraint check uses; every "
+          "sample from+u lies on the arc and is accepted by inside_bounds for ordinary and wrap-around ranges wherever they lie; zero-width "
+          "arcs return `from`, which is accepted; six joints together are compliant; [G] unconstrained joints. Runs draw from the real "
+          "thread-local generator, check that each sample is from+u with u in [0, span) (refinement) and that compliant() accepts it.",
+  "note": "rand's gen_range contract (value in [0, len), panic iff len <= 0) is trusted; the real generator's stream is not modelled, the "
+          "theorem quantifies over all draws. Trusted base as for C07.",
+ },
+})
 NOT_APPLICABLE = {}
